@@ -58,7 +58,7 @@ From Coq Require Import ZArith.
 From Carquet Require Import Base.Res Enc.DeltaBits
   Enc.PlainSpec Enc.PlainModel Enc.PlainProofs Enc.BssSpec Enc.BssModel Enc.BssProofs
   Enc.DeltaSpec Enc.DeltaModel Enc.DeltaArith Enc.DeltaProofs Enc.DeltaLenModel Enc.DeltaStrModel Enc.DeltaStrProofs
-  Enc.DictModel Enc.DictProofs.
+  Enc.DictModel Enc.DictProofs Enc.RleModel Enc.DictRleInst.
 
 (* ---------------------------------------------------------------- PLAIN *)
 Theorem plain_roundtrip_boolean : forall vs, len vs < 2 ^ 63 ->
@@ -170,10 +170,41 @@ Proof. exact BssProofs.bss_roundtrip_double. Qed.
 Print Assumptions bss_roundtrip_double.
 
 (* ---------------------------------------------------------------- dictionary *)
-(* relative to the index-stream codec (carquet_rle_encode_all / carquet_rle_decode_all): any pair with the round-trip
-   property; the RLE engine proves it for Enc/RleModel.v *)
+(* with carquet's own index codec (Enc/RleModel.v through the adapter DictRleInst.rle_enc / rle_dec; hypothesis closed
+   with RleProofs.rle_roundtrip_lemma) *)
+Theorem dict_roundtrip_int32_rle : forall vs, Forall (fun v => v < 2 ^ 32) vs -> len vs < 2 ^ 31 ->
+  let '(d, ixs) := dict_encode_fixed rle_enc 4 vs in
+  dict_decode_fixed rle_dec 4 d (Z.of_N (len d / 4)) ixs (len vs) = Ok vs.
+Proof. exact DictRleInst.dict_roundtrip_int32_rle. Qed.
+Print Assumptions dict_roundtrip_int32_rle.
+
+Theorem dict_roundtrip_int64_rle : forall vs, Forall (fun v => v < 2 ^ 64) vs -> len vs < 2 ^ 31 ->
+  let '(d, ixs) := dict_encode_fixed rle_enc 8 vs in
+  dict_decode_fixed rle_dec 8 d (Z.of_N (len d / 8)) ixs (len vs) = Ok vs.
+Proof. exact DictRleInst.dict_roundtrip_int64_rle. Qed.
+Print Assumptions dict_roundtrip_int64_rle.
+
+Theorem dict_roundtrip_float_rle : forall vs, Forall (fun v => v < 2 ^ 32) vs -> len vs < 2 ^ 31 ->
+  let '(d, ixs) := dict_encode_fixed rle_enc 4 vs in
+  dict_decode_fixed rle_dec 4 d (Z.of_N (len d / 4)) ixs (len vs) = Ok vs.
+Proof. exact DictRleInst.dict_roundtrip_float_rle. Qed.
+Print Assumptions dict_roundtrip_float_rle.
+
+Theorem dict_roundtrip_double_rle : forall vs, Forall (fun v => v < 2 ^ 64) vs -> len vs < 2 ^ 31 ->
+  let '(d, ixs) := dict_encode_fixed rle_enc 8 vs in
+  dict_decode_fixed rle_dec 8 d (Z.of_N (len d / 8)) ixs (len vs) = Ok vs.
+Proof. exact DictRleInst.dict_roundtrip_double_rle. Qed.
+Print Assumptions dict_roundtrip_double_rle.
+
+Theorem dict_roundtrip_fixed_rle : forall k vs, (0 < k)%nat -> Forall (fun v => v < 256 ^ N.of_nat k) vs -> len vs < 2 ^ 31 ->
+  let '(d, ixs) := dict_encode_fixed rle_enc k vs in
+  dict_decode_fixed rle_dec k d (Z.of_N (len d / N.of_nat k)) ixs (len vs) = Ok vs.
+Proof. exact DictRleInst.dict_roundtrip_fixed_rle. Qed.
+Print Assumptions dict_roundtrip_fixed_rle.
+
+(* the same relative to ANY index-stream codec with the round-trip property *)
 Theorem dict_roundtrip_fixed : forall (rle_encode : N -> list N -> list N) (rle_decode : N -> list N -> N -> res (list N)),
-  (forall w ix, w <= 32 -> Forall (fun i => i < 2 ^ w) ix -> rle_decode w (rle_encode w ix) (len ix) = Ok ix) ->
+  (forall w ix, w <= 32 -> Forall (fun i => i < 2 ^ w) ix -> len ix < 2 ^ 31 -> rle_decode w (rle_encode w ix) (len ix) = Ok ix) ->
   forall k vs, (0 < k)%nat -> Forall (fun v => v < 256 ^ N.of_nat k) vs -> len vs < 2 ^ 31 ->
   let '(d, ixs) := dict_encode_fixed rle_encode k vs in
   dict_decode_fixed rle_decode k d (Z.of_N (len d / N.of_nat k)) ixs (len vs) = Ok vs.
@@ -181,7 +212,7 @@ Proof. exact DictProofs.dict_roundtrip_fixed. Qed.
 Print Assumptions dict_roundtrip_fixed.
 
 Theorem dict_roundtrip_int32 : forall (rle_encode : N -> list N -> list N) (rle_decode : N -> list N -> N -> res (list N)),
-  (forall w ix, w <= 32 -> Forall (fun i => i < 2 ^ w) ix -> rle_decode w (rle_encode w ix) (len ix) = Ok ix) ->
+  (forall w ix, w <= 32 -> Forall (fun i => i < 2 ^ w) ix -> len ix < 2 ^ 31 -> rle_decode w (rle_encode w ix) (len ix) = Ok ix) ->
   forall vs, Forall (fun v => v < 2 ^ 32) vs -> len vs < 2 ^ 31 ->
   let '(d, ixs) := dict_encode_fixed rle_encode 4 vs in
   dict_decode_fixed rle_decode 4 d (Z.of_N (len d / 4)) ixs (len vs) = Ok vs.
@@ -189,7 +220,7 @@ Proof. exact DictProofs.dict_roundtrip_int32. Qed.
 Print Assumptions dict_roundtrip_int32.
 
 Theorem dict_roundtrip_int64 : forall (rle_encode : N -> list N -> list N) (rle_decode : N -> list N -> N -> res (list N)),
-  (forall w ix, w <= 32 -> Forall (fun i => i < 2 ^ w) ix -> rle_decode w (rle_encode w ix) (len ix) = Ok ix) ->
+  (forall w ix, w <= 32 -> Forall (fun i => i < 2 ^ w) ix -> len ix < 2 ^ 31 -> rle_decode w (rle_encode w ix) (len ix) = Ok ix) ->
   forall vs, Forall (fun v => v < 2 ^ 64) vs -> len vs < 2 ^ 31 ->
   let '(d, ixs) := dict_encode_fixed rle_encode 8 vs in
   dict_decode_fixed rle_decode 8 d (Z.of_N (len d / 8)) ixs (len vs) = Ok vs.
@@ -197,7 +228,7 @@ Proof. exact DictProofs.dict_roundtrip_int64. Qed.
 Print Assumptions dict_roundtrip_int64.
 
 Theorem dict_roundtrip_float : forall (rle_encode : N -> list N -> list N) (rle_decode : N -> list N -> N -> res (list N)),
-  (forall w ix, w <= 32 -> Forall (fun i => i < 2 ^ w) ix -> rle_decode w (rle_encode w ix) (len ix) = Ok ix) ->
+  (forall w ix, w <= 32 -> Forall (fun i => i < 2 ^ w) ix -> len ix < 2 ^ 31 -> rle_decode w (rle_encode w ix) (len ix) = Ok ix) ->
   forall vs, Forall (fun v => v < 2 ^ 32) vs -> len vs < 2 ^ 31 ->
   let '(d, ixs) := dict_encode_fixed rle_encode 4 vs in
   dict_decode_fixed rle_decode 4 d (Z.of_N (len d / 4)) ixs (len vs) = Ok vs.
@@ -205,7 +236,7 @@ Proof. exact DictProofs.dict_roundtrip_float. Qed.
 Print Assumptions dict_roundtrip_float.
 
 Theorem dict_roundtrip_double : forall (rle_encode : N -> list N -> list N) (rle_decode : N -> list N -> N -> res (list N)),
-  (forall w ix, w <= 32 -> Forall (fun i => i < 2 ^ w) ix -> rle_decode w (rle_encode w ix) (len ix) = Ok ix) ->
+  (forall w ix, w <= 32 -> Forall (fun i => i < 2 ^ w) ix -> len ix < 2 ^ 31 -> rle_decode w (rle_encode w ix) (len ix) = Ok ix) ->
   forall vs, Forall (fun v => v < 2 ^ 64) vs -> len vs < 2 ^ 31 ->
   let '(d, ixs) := dict_encode_fixed rle_encode 8 vs in
   dict_decode_fixed rle_decode 8 d (Z.of_N (len d / 8)) ixs (len vs) = Ok vs.
